@@ -21,7 +21,7 @@ RULE = ("(encoder level) for every setting of ET, DT and the register-addressed 
 ASSUMPTIONS = ["values whose encoding is the type's 'no value' sentinel (Integer 65535, Voltage/Current 6553.5, Long 2^32-1) are "
                "outside the readable domain: only the write part is asserted for them",
                "ES: only the register-addressed settings (eco-mode groups and switches; 011A/0239 over AA55 for v1, Modbus for v2)"]
-MUST = ["sensors_polled_before_settings", "write_after_recovered_fragment_loss", "switch_seen_in_its_group", "refused_writes", "refused_rmw_reads", "byte_setting_already_holds_value", "dt_phase_pairs", "encoder_values", "e2e_writes", "e2e_readbacks", "byte_settings_rmw", "negative_values", "multi_register_writes",
+MUST = ["write_applied_but_answered_with_exception", "sensors_polled_before_settings", "write_after_recovered_fragment_loss", "switch_seen_in_its_group", "refused_writes", "refused_rmw_reads", "byte_setting_already_holds_value", "dt_phase_pairs", "encoder_values", "e2e_writes", "e2e_readbacks", "byte_settings_rmw", "negative_values", "multi_register_writes",
         "aa55_writes", "tcp_writes", "settings_covered"]
 EXHAUSTIVE = {"quick": False, "thorough": False}
 
@@ -258,7 +258,7 @@ def e2e_part(spec, part):
                 w0 = len(sim.writes)
                 case = {"e2e": True, "spec": spec, "setting": sn.id_, "value": repr(v)}
                 part.evaluations += 1
-                if rnd.random() < 0.08 and not (fam == "ES" and sn.offset < 30000) and cls != "sentinel":
+                if rnd.random() < 0.12 and not (fam == "ES" and sn.offset < 30000) and cls != "sentinel":
                     # the inverter refuses this write with a Modbus exception other than ILLEGAL DATA ADDRESS: write_setting must not
                     # report success (the premise "after write_setting succeeds" would otherwise be claimed for a write never performed)
                     code = rnd.choice((3, 4, 6))
@@ -282,6 +282,25 @@ def e2e_part(spec, part):
                                 part.violate(f"C17/{fam}/other-half-of-register-changed",
                                              f"{tagtxt}: the read of register {sn.offset} was refused (exception {code}), write_setting('{sn.id_}', {v!r}) went on and "
                                              f"changed the register from {old:04x} to {new:04x}: the other byte was not preserved", case)
+                        continue
+                    if rnd.random() < 0.4:
+                        # ... or it APPLIES the write and answers with an exception frame all the same (5 ACKNOWLEDGE = accepted, still
+                        # processing; buggy firmware with other codes): whatever write_setting reports, the inverter got ONE write
+                        code = rnd.choice((5, 5, 6, 4, 11))
+                        sim.ack_exc = {sn.offset: code}
+                        try:
+                            await inv.write_setting(sn.id_, v)
+                        except NotImplementedError:
+                            sim.ack_exc = {}
+                            break
+                        except Exception:       # noqa
+                            pass
+                        sim.ack_exc = {}
+                        part.count("write_applied_but_answered_with_exception")
+                        if len(sim.writes) - w0 > 1:
+                            part.violate(f"C17/{fam}/write-transmitted-twice",
+                                         f"{tagtxt}: the inverter applied the write of '{sn.id_}' and answered with exception {code}: write_setting('{sn.id_}', "
+                                         f"{v!r}) made it receive {len(sim.writes) - w0} writes {[(w[1], w[2]) for w in sim.writes[w0:]][:3]}", case)
                         continue
                     sim.exc_map[(6, sn.offset)] = sim.exc_map[(16, sn.offset)] = code
                     try:
